@@ -907,7 +907,11 @@ def f_id_dup(w, r, g):
     if not dests:
         return None
     cls, get, put = r.choice(dests)
+    before = sum(1 for s_ in sites if s_[1]() == val) + sum(1 for (_c, v_) in mids if v_ == val)
     put(val)
+    after = sum(1 for s_ in sites if s_[1]() == val) + sum(1 for (_c, v_) in mids if v_ == val)
+    if not (val != "" and after > before and after >= 2):
+        return None          # the write landed on the object that already carried the id: nothing was duplicated
     return {"where": "duplicate/" + src_cls.split("/")[0] + "+" + cls.split("/")[0], "cite": ["XML_ID_ATTRIBUTE"]}
 
 
@@ -926,6 +930,7 @@ def f_comp_name_dup(w, r, g):
         return None
     a, b = r.sample(cs, 2)
     b.name = a.name
+    assert a is not b and a.name != "" and sum(1 for x in cs if x.name == a.name) >= 2
     order = [x for x in cs if x is a or x is b]
     second = order[1]
     return {"where": "component/" + comp_class(m, a) + "+" + comp_class(m, b),
@@ -1022,6 +1027,7 @@ def f_units_name_dup(w, r, g):
     a, b = r.sample(m.units, 2)
     old = b.name
     b.name = a.name
+    assert a is not b and a.name != "" and old != a.name
     first = [x for x in m.units if x is a or x is b][0]
     # (whichever of the two is validated first decides the rule; references by name may visit one earlier: both accepted)
     return {"where": "units/" + idx_class(m.units, a) + "+" + idx_class(m.units, b) + ("/imported" if (a.imp or b.imp) else ""),
@@ -1162,6 +1168,7 @@ def f_var_name_dup(w, r, g):
         return None
     a, b = r.sample(c.vars, 2)
     b.name = a.name
+    assert a is not b and a.name != ""
     return {"where": "variable/" + comp_class(m, c) + "/" + idx_class(c.vars, a) + "+" + idx_class(c.vars, b), "cite": ["VARIABLE_NAME_UNIQUE"]}
 
 
@@ -1403,9 +1410,13 @@ def f_math_unsupported(w, r, g):
 
 
 def f_math_ci_unknown(w, r, g):
+    commented = r.random() < 0.3     # the name comes after a comment (looked at since /repo 064d865)
+
     def change(el):
-        return (el[0], el[1], el[2], el[3], [T(r.choice(["no_such_variable", "é", "x y"]))])
-    return math_mutate(w, r, g, lambda d, p, el: el[2] == "ci", change, ["MATH_CI_VARIABLE_REFERENCE"], "ci-unknown-variable")
+        name = T(r.choice(["no_such_variable", "é", "x y"]))
+        return (el[0], el[1], el[2], el[3], [Cm(" c "), name] if commented else [name])
+    return math_mutate(w, r, g, lambda d, p, el: el[2] == "ci", change, ["MATH_CI_VARIABLE_REFERENCE"],
+                       "ci-unknown-variable" + ("-after-comment" if commented else ""))
 
 
 def f_math_ci_empty(w, r, g):
@@ -1495,6 +1506,19 @@ def f_math_arity(w, r, g):
     return math_mutate(w, r, g, pred, change, ["MATH_MATHML"], "arity-" + kind)
 
 
+def f_math_diff_operand(w, r, g):
+    """the operand of diff (second sibling) is not a ci (rule added by /repo 49595f2)"""
+    def pred(d, p, el):
+        return el[2] == "apply" and len(el[4]) == 3 and el[4][0][0] == "E" and el[4][0][2] == "diff" and el[4][2][0] == "E" and el[4][2][2] == "ci"
+
+    def change(el):
+        kids = list(el[4])
+        kids[2] = r.choice([E("cn", [T("1")], [(CELLML_NS, "units", "dimensionless")]), E("pi"),
+                            E("apply", [E("sin"), kids[2]])])
+        return (el[0], el[1], el[2], el[3], kids)
+    return math_mutate(w, r, g, pred, change, ["MATH_MATHML"], "diff-operand-not-ci")
+
+
 # ---- connections
 
 def f_equiv_unreachable(w, r, g):
@@ -1560,7 +1584,12 @@ def f_units_incompatible(w, r, g):
     if other.units != v.units and mine and r.random() < 0.6:
         # same names, another definition: the units of this side gets a further base unit
         used_elsewhere = any(x.units == v.units and x.eqs and x is not v for x in m.all_vars())
-        if not used_elsewhere:
+        # ... and no other units is defined in terms of it (else the other side would change dimension with it)
+        referenced = any(it.ref == v.units for u in m.units for it in u.items)
+        if not used_elsewhere and not referenced:
+            # by construction a dimension change on this side only: a further factor candela^k (k > 0) on a units that no
+            # other units is defined from, while the other side's units has another name, hence an unchanged definition
+            assert other.units != v.units and not any(it.ref == v.units for u in m.units for it in u.items)
             mine[0].items.append(Item("candela", "", (r.choice([1, 2]), 1)))
             return {"where": "equivalence/units-redefined/" + vclass(m, c, v), "cite": ["MAP_VARIABLES_ELEMENT"]}
     base = {"second": "metre", "volt": "second", "dimensionless": "kilogram"}
@@ -1608,7 +1637,7 @@ FAULTS = [
     ("reset-no-order", f_reset_no_order), ("reset-order-duplicate", f_reset_order_dup), ("reset-no-value", f_reset_no_value),
     ("math-root", f_math_root), ("math-unsupported-element", f_math_unsupported), ("math-ci-unknown", f_math_ci_unknown),
     ("math-ci-empty", f_math_ci_empty), ("math-cn-units", f_math_cn_units), ("math-cn-base", f_math_cn_base),
-    ("math-cn-format", f_math_cn_format), ("math-arity", f_math_arity),
+    ("math-cn-format", f_math_cn_format), ("math-arity", f_math_arity), ("math-diff-operand", f_math_diff_operand),
     ("equivalence-unreachable", f_equiv_unreachable), ("interface-insufficient", f_iface_insufficient),
     ("equivalence-units", f_units_incompatible), ("equivalence-parentless", f_equiv_parentless),
 ]
@@ -1621,6 +1650,8 @@ def inject(world, fault, rng, gen):
     info = fn(w, rng, gen)
     if info is None:
         return None
+    if to_tokens(w) == to_tokens(world):
+        return None          # the injector wrote what was already there: no fault was injected
     info["fault"] = fault
     return w, info
 
